@@ -19,40 +19,40 @@ CLAIMS = {
              "power, scaling and in-service mask; ZIP voltage law has the same shape in the mismatch and in the "
              "result writer; branch types built equal branch types reported; accumulations into a bus vector with repeated "
              "indices use an unbuffered/unique-index form; the ZIP split has the same sibling form for loads and "
-             "asymmetric loads; the result shortcut is guarded by the flag that makes it valid.",
+             "asymmetric loads; the result shortcut is guarded by the flag that makes it valid. Also: in-service factor on every shunt term, total shared at a reference bus, refresh of the recycled DC cache.",
              "ast table-agreement + dependence + monomial-shape analysis"),
     "C02": C("Monomial-shape abstract interpretation (base-power degree, physical unit, decimal scale, parallel "
              "degree) of every per-unit conversion and result formula of the documented element models; T/pi "
              "clause by dependence. A mis-scaled factor, dropped /parallel or wrong base exponent is reported; the "
              "phase shift enters with the sign of the tapped side in every branch of the shift computation; no "
-             "binary operation in the branch builders has two identical operands (copy/paste contradiction lint).",
+             "binary operation in the branch builders has two identical operands (copy/paste contradiction lint). Also: trafo3w side base min(sn) per winding pair, magnetising branch on the tap-adjusted LV voltage, refresh of the recycled DC cache.",
              "abstract interpretation (monomial-shape domain) over ast"),
     "C03": C("In every branch result writer pl/ql is the positive sum of exactly the terminal power columns (AC) "
              "and zero-like (DC); slack power depends on demand and losses; slack power split over several slack "
-             "elements at one bus divides by the element count of that bus.",
+             "elements at one bus divides by the element count of that bus. Also: total shared among reference machines (bus power minus other set-points), agreement of the numba and pypower pfsoln twins.",
              "ast def-use / dependence analysis of result writers"),
     "C04": C("Setpoint columns flow into the ppc columns that fix them and results read back the element's own "
              "row; ZIP and shunt laws have the documented voltage degree; the Q-limit loop pins a violating "
-             "generator at the limit it violated; stepped shunts multiply power and step together.",
+             "generator at the limit it violated; stepped shunts multiply power and step together. Also: Q-limit demand adjustment from the generator row, ordinary generators at a reference bus keep their set-point.",
              "dependence + monomial-shape analysis"),
     "C05": C("Base-power homogeneity and parallel-count homogeneity of every ppc writer and result reader; every "
              "ppc column that holds a bus number is re-mapped in _ppc2ppci; result writers index through lookups; "
-             "bus fusing tests both ends of a switch.",
+             "bus fusing tests both ends of a switch. Also: in-service factor on every shunt term; dc line resistance divided by parallel.",
              "monomial-shape abstract interpretation + table agreement"),
     "C07": C("Element types giving connectivity in the power flow agree with those giving edges in the topology "
              "graph used by unsupplied_buses; slack definitions agree; NaN is written exactly for isolated buses "
              "before results are read; every element type's in-service mask combines its own flag with its bus's; "
-             "isolated-node detection covers both numba and numpy siblings.",
+             "isolated-node detection covers both numba and numpy siblings. Also: loops over literal element-type lists in the builders never exit early.",
              "table agreement + ordering (dominators) on ast"),
     "C08": C("Pairing of auxiliary-element acquire/release on every normal and exceptional path of every calculation "
              "entry point; no reachable function stores into a schema column of a user table or drops/adds rows "
-             "unless restored (including the contingency outage flag); no in-place write through a view of a user table.",
+             "unless restored (including the contingency outage flag); no in-place write through a view of a user table. Also: the release removes as many auxiliary rows as the acquire added (all dcline rows, two each).",
              "call graph + statement CFG with exceptional edges (PAIR), effect analysis, alias/view analysis"),
     "C09": C("Typestate of the cached per-network state: on every path of every calculation entry point no cached key "
              "(net._options, _pd2ppc_lookups[...], _is_elements(_final), _ppc*, _isolated_buses ...) is read before it has "
              "been rewritten in the same call (explicit recycle excepted and guarded); result tables re-initialised before "
              "the conversion and every written result table is one the mode re-initialises; start voltages taken from "
-             "result tables pass a NaN replacement; no memoisation on the calculation path.",
+             "result tables pass a NaN replacement; no memoisation on the calculation path. Also: auxiliary rows removed on every path, recycled run re-runs every flagged builder, init_* options read by the start-vector code only.",
              "interprocedural must-definedness (typestate) walk with constant propagation + taint analysis on ast"),
     "C10": C("Only the bookkeeping of slack weights is claimed: every table with a slack_weight column is written to SL_FAC "
              "with its in-service mask; weights and buses are paired by position through order-preserving steps; per-island "
@@ -71,75 +71,75 @@ CLAIMS = {
     "C12": C("Writer/reader table agreement: every (element, variable) ConstControl marks recyclable is read by a "
              "builder that the raised flag re-runs; every variable accepted for batch reading is provided by "
              "get_batch_outputs; stored Ybus/Sbus reused only when the corresponding flags are clear; a recycled run "
-             "re-runs the builders of every flagged table; a diverged run does not leave a ppc marked successful.",
+             "re-runs the builders of every flagged table; a diverged run does not leave a ppc marked successful. Also: batch readers use the regular rating expressions; OutputWriter's positional fast path only under index equality.",
              "literal-table extraction + transitive read-set analysis over the call graph"),
     "C13": C("Controllers ordered ascending by (level, order), in-service only; every control step is followed by an "
              "evaluation of the net before the loop test; loop bound and not-converged raise are complementary; tap "
              "steps are guarded by the tap limits in the same mask, the continuous tap passes np.clip before the write; "
              "the convergence test of each tap controller accepts exactly the limit that blocks the needed step "
-             "(sibling agreement of control_step and is_converged).",
+             "(sibling agreement of control_step and is_converged). Also: initialize_control re-reads the tap limits; is_converged compares the magnitude of the deviation.",
              "ordering / guard / sibling cross-check on ast"),
     "C14": C("in_service restored in finally for every N-1 case; N-0 evaluation after the N-1 loop; min/max masks "
              "exclude own outage and NaN; cause attribution is NaN-safe; the N-1 limit column is read from the table "
-             "whose loading is compared.",
+             "whose loading is compared. Also: N-1 cases run with pf_options_nminus1, the base case with pf_options; out-of-service cases skipped.",
              "CFG pairing + dependence analysis"),
     "C15": C("Sibling agreement between the sequential and the parallel update function (same masks, own outage "
              "excluded in both, in-service mask applied in both); results consumed in task order (no unordered map); "
-             "workers write only to copies.",
+             "workers write only to copies. Also: worker and sequential fallback run N-1 cases with pf_options_nminus1; task list skips out-of-service elements; pool size n_procs.",
              "sibling cross-check + effect analysis on ast"),
     "C16": C("Every declared OPF constraint column is read on the OPF conversion path into the matching ppc limit "
              "column with the load-like inversion pair; paired fancy-index masks agree (MASKPAIR); if/else limit "
-             "assignments cover both bounds; DC line limits are written on the side they constrain.",
+             "assignments cover both bounds; DC line limits are written on the side they constrain. Also: branch rating depends on df; controllable NaN filled before the bool cast; Q-limit loop restores PD and QD.",
              "dependence analysis + contradiction lint"),
     "C17": C("Sign parity of cost coefficients: the element sign may multiply odd-degree coefficients only; "
              "res_cost flows from the objective of the same gencost; signs are aligned with the filtered cost rows; "
-             "polynomial coefficients are scaled per unit by degree.",
+             "polynomial coefficients are scaled per unit by degree. Also: dcline cost mapped to its own auxiliary generator (index expression evaluated); no stale per-row quantity in makeAy.",
              "monomial-shape (sign parity) analysis"),
     "C18": C("Unit, decimal scale and base-power degree 0 of every closed-form short-circuit result (ikss, skss, ip, "
              "rk/xk) and of the short-circuit admittances; literal factors (1/sqrt3, 1/2, sqrt3, sqrt2; 2ph = sqrt3/2 of "
              "3ph; 1ph z = 2 z1 + z0); kappa range by interval evaluation; per-bus locality of the formulas; agreement "
-             "of the inverse_y branches.",
+             "of the inverse_y branches. Also: min-case temperature correction independent of the load-flow alpha; shared corrected network independent of the faulted-bus set.",
              "monomial-shape abstract interpretation + literal-factor and interval evaluation of closed forms + sibling cross-check"),
     "C19": C("Every numpy/scipy attribute chain evaluated on the state-estimation path exists in the installed "
              "library namespace (a missing name makes estimation fail for every input); the ten measurement blocks of z, "
              "covariance, index map, non-NaN masks, h(x) and Jacobian rows are the same kinds in the same order, each "
-             "selected with its own mask and the matching real/imag part.",
+             "selected with its own mask and the matching real/imag part. Also: duplicates merged by the weighted average before summation; no dead local stores in the estimation package.",
              "ast attribute-chain resolution against installed stub files + sibling order/mask agreement",
              note="Trusted base: ast parser, the installed numpy/scipy .pyi/.py files as the namespace oracle. Decides API "
                   "existence and block agreement only, not the estimate."),
     "C20": C("Writer/reader agreement of the serialisers: every metadata key an encoder emits is consumed by its "
              "decoder, every emitted class signature has a decoder, encryption is paired, Excel/SQLite column "
-             "coding sets agree; a stored std-type parameter takes precedence in the documented order.",
+             "coding sets agree; a stored std-type parameter takes precedence in the documented order. Also: NaN/inf written as JSON extensions, pickle keeps dtype objects, include_* switches not overridden.",
              "literal-table extraction and agreement on ast"),
     "C22": C("Foreign keys declared in network_schema are covered by the toolbox tables; every type code of a "
              "referencing table is handled by reindex_elements; every row drop in the toolbox is preceded by group "
              "detach and followed by result/reference cascade; re-indexing covers result tables; element-type codes are "
-             "compared exactly and mapped to the table they name.",
+             "compared exactly and mapped to the table they name. Also: all reference rewrites select by old_indices; cost rows dropped for every dropped element.",
              "schema-vs-toolbox table agreement + ordering on ast"),
     "C23": C("Only the replacement family is claimed: every parameter of an element created by a replace_* function of the "
              "toolbox (line<->impedance, ward/xward -> internal elements or ward, ext_grid<->gen, gen<->sgen, load/sgen/"
              "storage conversions) has the unit, decimal scale, base-power degree, parallel degree and sign of its column "
              "and flows from the corresponding parameter of the replaced element. Re-indexing, merging, sub-net selection, "
-             "dropping and fusing are not decided.",
+             "dropping and fusing are not decided. Also: asymmetry test of impedance->line, f_hz handed to sub-networks, characteristic id offset when merging.",
              "monomial-shape abstract interpretation (rows of itertuples/iterrows as table rows, create_* inlined)"),
     "C24": C("Sibling agreement of single and batch creators: std-type keys consumed, columns written, existence and "
-             "index checks called, duplicate-cost predicate structure incl. the power_type filter.",
+             "index checks called, duplicate-cost predicate structure incl. the power_type filter. Also: index checks dominate the return, optional columns decided over all types, explicit arguments override the type.",
              "sibling cross-check of literal tables on ast"),
     "C25": C("Electrical keys of the built-in standard-type libraries are consumed by the creators; change_std_type "
              "iterates over the type's parameters and applies them unconditionally, replacing the std_type cell; list-valued "
-             "optional parameters are optional in both creators; no caller mutates the dict returned by load_std_type.",
+             "optional parameters are optional in both creators; no caller mutates the dict returned by load_std_type. Also: single and batch creators consume the same std-type keys; fuse curves pair x_k with t_k.",
              "table agreement + alias/mutation analysis"),
     "C26": C("Per edge-producing block of create_nxgraph: in_service dependence, switch mask dependence on closed/et, "
              "out-of-service bus removal, nogobuses/notravbuses handling; connected_components removes each "
              "component from the work set; multigraph distances take the minimum over parallel edges; each include_* "
-             "option gates the block of its own element type.",
+             "option gates the block of its own element type. Also: untouched buses added from the counted index; trafo3w open switches matched as (index, bus) pairs.",
              "dependence analysis on ast"),
     "C27": C("Cascade clauses: detach-before-drop in every drop function; reindexing rewrites group element_index; "
              "group row removed exactly when member list becomes empty; group cells are not mutated through aliases shared "
-             "between groups; index None checks precede use.",
+             "between groups; index None checks precede use. Also: parallel group lists not re-bound before zip; reference-column uniqueness tested on the whole column.",
              "ordering + dependence analysis on ast"),
     "C28": C("get_equivalent rebinds net to a deep copy before the first write and no reachable function writes "
-             "to an object aliasing the caller's net.",
+             "to an object aliasing the caller's net. Also: list cells shared with the caller's net not mutated in place; no discarded drop() results in grid_equivalents.",
              "effect analysis with parameter aliasing over the call graph"),
     "C29": C("Only the structure of the trip decision of Fuse and OCRelay is claimed: the current is read from "
              "res_switch_sc.ikss_ka / res_switch.i_ka at the device's own switch and reported unchanged; threshold chains test "
@@ -150,10 +150,10 @@ CLAIMS = {
              "ast branch-chain / sibling-agreement / effect analysis"),
     "C30": C("No module-level mutable escapes by reference into instance state that is mutated in place; each "
              "diagnostic function that writes its parameter's tables (directly or through a callee) restores them on every "
-             "normally returning path; results are returned in fresh containers.",
+             "normally returning path; results are returned in fresh containers. Also: no mutable class attribute shared between Diagnostic instances, no memoised function in the package.",
              "shared-mutable escape analysis + CFG restore pairing"),
     "C31": C("A lookup built from a frame merged on (id, step) must be keyed on both keys; no in-place write through "
-             "a view of net.trafo; written values depend on tap_pos and id_characteristic_table of the same rows.",
+             "a view of net.trafo; written values depend on tap_pos and id_characteristic_table of the same rows. Also: formula masks exclude table transformers, table angle signed by the tapped side, vk lookup mask independent of the tap position.",
              "key-collapse dependence analysis + alias/view analysis"),
     "C32": C("Only argument order, transform pairing and serialisation bookkeeping of the characteristic classes are claimed: "
              "abscissae before ordinates from the object's own support points in np.interp / interp1d / PchipInterpolator, "
@@ -172,7 +172,7 @@ CLAIMS = {
     "C34": C("Information-flow argument: 'was the argument passed' must be computed from information that differs "
              "between runpp(net) and runpp(net, algorithm='nr'); checks signature defaults, the passed-parameter "
              "test and overrule list agreement; the kwargs handed to the passed-parameter test are the caller's own; every "
-             "stored-option reader goes through the priority function.",
+             "stored-option reader goes through the priority function. Also: exact inequality in the passed test, overrule_options not extended after filtering, run_control branch hands every parameter on.",
              "information-flow argument on signature/ast"),
 }
 
